@@ -235,40 +235,48 @@ Path(prefix, n) == IF prefix = "" THEN n ELSE prefix \o "/" \o n
 (* Running.  RunProg is the whole run of one (sub)graph: a deterministic   *)
 (* function of program, provided values, invocation counters and mode.     *)
 (* Results:                                                                *)
-(*   [status, vals, err, pause, steps, ctr, calls]                         *)
+(*   [status, vals, err, pause, steps, w, calls, done]                     *)
 (*   status \in {"completed", "failed", "paused"}                          *)
 (*   err = [path, kind] with kind \in {"body", "infinite"} (or NoErr)      *)
 (***************************************************************************)
 NoErr   == [path |-> None, kind |-> None]
 NoPause == [path |-> None, key |-> None, value |-> None]
 
-RECURSIVE RunProg(_, _, _, _, _, _), Loop(_, _, _, _, _), StepFold(_, _, _, _, _, _, _), ExecNode(_, _, _, _, _, _, _)
+RECURSIVE RunProg(_, _, _, _, _), Loop(_, _, _, _, _), StepFold(_, _, _, _, _, _, _), ExecNode(_, _, _, _, _, _, _)
 
-\* ex = [status |-> "ok"|"fail"|"pause", outs, dec, ctr, calls, err, pause]
+\* The "world" w = [ctr, calls, done] is threaded through every (nested) run:
+\*   ctr    invocation counters per node path (scripts are indexed by them)
+\*   calls  log of body invocations (starts), in the order the sync runner produces them
+\*   done   log of successful node completions [path, frame, node, step]
+World0 == [ctr |-> EmptyMap, calls |-> <<>>, done |-> <<>>]
+
+\* ex = [status |-> "ok"|"fail"|"pause", outs, dec, w, err, pause]
 ExecNode(pr, prefix, nd, args, st, step, mode) ==
   LET path == Path(prefix, nd.name)
-      idx  == Get(st.ctr, path, 0) + 1
+      idx  == Get(st.w.ctr, path, 0) + 1
       call == [path |-> path, frame |-> prefix, node |-> nd.name, step |-> step,
-               idx |-> idx, args |-> CallArgs(args)]
-      base == [status |-> "ok", outs |-> <<>>, dec |-> NoDec, ctr |-> Put(st.ctr, path, idx),
-               calls |-> st.calls \o <<call>>, err |-> NoErr, pause |-> NoPause]
+               idx |-> idx, args |-> CallArgs(args),
+               dec |-> IF IsGate(nd) /\ idx \notin Names(nd.fail_at)
+                       THEN Decide(nd, RawDecision(nd, idx)) ELSE NoDec]
+      w1   == [st.w EXCEPT !.ctr = Put(st.w.ctr, path, idx), !.calls = st.w.calls \o <<call>>]
+      base == [status |-> "ok", outs |-> <<>>, dec |-> NoDec, w |-> w1, err |-> NoErr, pause |-> NoPause]
   IN
   IF IsGraph(nd) THEN
      LET inner == [i \in 1..Len(args) |-> <<InnerName(nd, args[i][1]), args[i][3]>>]
-         r == RunProg(nd.sub, path, inner, st.ctr, st.calls, mode)
+         r == RunProg(nd.sub, path, inner, st.w, mode)
      IN IF r.status = "completed" THEN
            LET rv == FilterOut(nd.sub, r.vals, Unset)
                present == SelectSeq(nd.outmap, LAMBDA pair : pair[1] \in DOMAIN rv)
            IN [base EXCEPT !.outs = [i \in 1..Len(present) |-> <<present[i][2], rv[present[i][1]]>>],
-                           !.ctr = r.ctr, !.calls = r.calls]
+                           !.w = r.w]
         ELSE IF r.status = "paused" THEN
-           [base EXCEPT !.status = "pause", !.ctr = r.ctr, !.calls = r.calls, !.pause = r.pause]
-        ELSE [base EXCEPT !.status = "fail", !.ctr = r.ctr, !.calls = r.calls, !.err = r.err]
+           [base EXCEPT !.status = "pause", !.w = r.w, !.pause = r.pause]
+        ELSE [base EXCEPT !.status = "fail", !.w = r.w, !.err = r.err]
   ELSE IF IsIntr(nd) /\ (\A j \in 1..nd.ndata : nd.outputs[j] \in DOMAIN st.vals) /\ ~Ran(st, nd.name) THEN
      \* resume path: the answers are already in the state; the handler is not invoked
      [base EXCEPT !.outs = [j \in 1..Len(nd.outputs) |->
                              <<nd.outputs[j], IF j <= nd.ndata THEN st.vals[nd.outputs[j]] ELSE Sent>>],
-                  !.ctr = st.ctr, !.calls = st.calls]
+                  !.w = st.w]
   ELSE IF idx \in Names(nd.fail_at) THEN
      [base EXCEPT !.status = "fail", !.err = [path |-> path, kind |-> "body"]]
   ELSE IF IsIntr(nd) THEN
@@ -290,10 +298,12 @@ StepFold(pr, prefix, snap, acc, rs, i, mode) ==
   ELSE
   LET nd == pr.nodes[rs[i]]
       ex == ExecNode(pr, prefix, nd, Args(pr, snap, nd), acc.st, snap.steps + 1, mode)
-      stc == [acc.st EXCEPT !.ctr = ex.ctr, !.calls = ex.calls]
+      stc == [acc.st EXCEPT !.w = ex.w]
   IN
   IF ex.status = "ok" THEN
-     LET st1 == Record(ApplyOuts(stc, ex.outs, 1), nd, snap)
+     LET stD == [stc EXCEPT !.w.done = stc.w.done \o <<[path |-> Path(prefix, nd.name), frame |-> prefix,
+                                                         node |-> nd.name, step |-> snap.steps + 1]>>]
+         st1 == Record(ApplyOuts(stD, ex.outs, 1), nd, snap)
          st2 == IF ex.dec # NoDec THEN [st1 EXCEPT !.dec = Put(st1.dec, nd.name, ex.dec)] ELSE st1
      IN StepFold(pr, prefix, snap, [acc EXCEPT !.st = st2], rs, i + 1, mode)
   ELSE IF ex.status = "fail" THEN
@@ -309,7 +319,7 @@ StepFold(pr, prefix, snap, acc, rs, i, mode) ==
 
 Result(status, st, err, pause) ==
   [status |-> status, vals |-> st.vals, err |-> err, pause |-> pause,
-   steps |-> st.steps, ctr |-> st.ctr, calls |-> st.calls]
+   steps |-> st.steps, w |-> st.w, calls |-> st.w.calls, done |-> st.w.done]
 
 Loop(pr, prefix, st, mode, unused) ==
   LET rs == ReadySeq(pr, st, mode) IN
@@ -318,15 +328,15 @@ Loop(pr, prefix, st, mode, unused) ==
   ELSE LET snap == [st EXCEPT !.dec = DecClean(pr, st)]
            acc  == StepFold(pr, prefix, snap,
                             [st |-> snap, first |-> "none", err |-> NoErr, pause |-> NoPause], rs, 1, mode)
-           obs  == [snap EXCEPT !.ctr = acc.st.ctr, !.calls = acc.st.calls]
+           obs  == [snap EXCEPT !.w = acc.st.w]
        IN IF acc.first = "fail" THEN Result("failed", acc.st, acc.err, NoPause)
           ELSE IF acc.first = "pause" THEN Result("paused", obs, NoErr, acc.pause)  \* pre-step state
           ELSE Loop(pr, prefix, [acc.st EXCEPT !.steps = st.steps + 1], mode, unused)
 
 \* provided: seq of <<name, value>>
-RunProg(pr, prefix, provided, ctr, calls, mode) ==
+RunProg(pr, prefix, provided, w, mode) ==
   Loop(pr, prefix,
        [vals |-> PairsToMap(provided), vers |-> [x \in PairKeys(provided) |-> 1],
-        last |-> EmptyMap, dec |-> EmptyMap, steps |-> 0, ctr |-> ctr, calls |-> calls],
+        last |-> EmptyMap, dec |-> EmptyMap, steps |-> 0, w |-> w],
        mode, 0)
 =======================================================================
